@@ -7,9 +7,10 @@
    cfg flags select the pre-repair behaviour).  Lemmas: Proofs/FileConfine.v.
 
    view_at f p is everything an observer sees at physical location p (absent; directory with
-   its permission bits; file content with its permission bits; link text): "view_at f' p =
+   its permission bits and the time last set on it with utimes; file content with its permission
+   bits and the time last set; link text): "view_at f' p =
    view_at f p for every p not below wd" says that nothing outside the working directory
-   was created, overwritten, truncated, re-moded, replaced or deleted.  pres is
+   was created, overwritten, truncated, re-moded, re-timed, replaced or deleted.  pres is
    Store.PreservePermissions.  Inv is the invariant of a tree whose working directory (and its
    ancestors) are real directories and whose files below it share no inode with the outside.
    It says nothing about symbolic links: the tree may hold any links with any targets (links
@@ -18,17 +19,20 @@
    happens at the lexical location that was validated.  Inv is preserved by the store. *)
 From Oras Require Import Base.Prelude Model.FileConfine Proofs.FileConfine.
 
-(* every sequence of pushes (named blobs and archives to unpack; any titles, any entries
+(* Partial: Inv excludes a working directory pre-populated with hard links to files outside
+   (known finding shared-inode-*, C11_shared_inode_refuted below) and requires the working
+   directory to exist and to be reached through real directories.
+   Every sequence of pushes (named blobs and archives to unpack; any titles, any entries
    of any type, any link targets, any process cwd) leaves everything outside the working
    directory untouched and keeps the invariant *)
-Theorem C11_confined :
+Theorem C11_confined_partial :
   forall (wd : path) (pres : bool) (cwd : path) (os : list pushop) (s s' : store) (oks : list bool),
     Inv wd (st_fs s) ->
     pushes cfg_fixed pres wd cwd s os = (s', oks) ->
     Inv wd (st_fs s') /\
     (forall p, inside wd p = false -> view_at (st_fs s') p = view_at (st_fs s) p).
 Proof. exact pushes_keeps. Qed.
-Print Assumptions C11_confined.
+Print Assumptions C11_confined_partial.
 
 (* the entry of the working directory in its parent is not deleted or replaced either *)
 Theorem C11_working_directory_kept :
@@ -50,10 +54,11 @@ Print Assumptions C11_outside_title_rejected.
 
 (* an archive with an entry whose name lexically resolves outside is rejected with an error *)
 Theorem C11_outside_entry_rejected :
-  forall (g : cfg) (pres : bool) (wd cwd : path) (s : store) (title : str) (es1 : list entry) (e : entry) (es2 : list entry),
+  forall (g : cfg) (pres : bool) (wd cwd : path) (s : store) (title : str) (ts : list N)
+         (es1 : list entry) (e : entry) (es2 : list entry),
     title <> [] ->
     inside wd (lex_loc wd (entry_name e)) = false ->
-    snd (push g pres wd cwd s (PDir title (es1 ++ e :: es2))) = false.
+    snd (push g pres wd cwd s (PDir title ts (es1 ++ e :: es2))) = false.
 Proof. exact push_outside_entry. Qed.
 Print Assumptions C11_outside_entry_rejected.
 
@@ -62,7 +67,7 @@ Theorem C11_outside_entry_no_effect :
   forall (g : cfg) (pres : bool) (wd cwd : path) (title : str) (f : fsys) (e : entry),
     inside wd (lex_loc wd title) = true ->
     inside wd (lex_loc wd (entry_name e)) = false ->
-    extract_entry g pres cwd (lex_loc wd title) title f e = None.
+    forall t, extract_entry g pres cwd (lex_loc wd title) title f e t = None.
 Proof. exact entry_outside_rejected. Qed.
 Print Assumptions C11_outside_entry_no_effect.
 
@@ -73,46 +78,51 @@ Theorem C11_prefix_refuted : escapes cfg_prefix.
 Proof. exact prefix_escapes. Qed.
 Print Assumptions C11_prefix_refuted.
 
-Theorem C11_prefix_refuted_hardlink_cwd : escapes (mkCfg false true true true true).
+Theorem C11_prefix_refuted_hardlink_cwd : escapes (mkCfg false true true true true true).
 Proof. exact refuted_hardlink_cwd. Qed.
 Print Assumptions C11_prefix_refuted_hardlink_cwd.
 
-Theorem C11_prefix_refuted_raw_absolute_title : escapes (mkCfg true false true true true).
+Theorem C11_prefix_refuted_raw_absolute_title : escapes (mkCfg true false true true true true).
 Proof. exact refuted_abs_title. Qed.
 Print Assumptions C11_prefix_refuted_raw_absolute_title.
 
 Theorem C11_prefix_refuted_link_replaces_working_directory :
-  lookup (st_fs (fst (pushes (mkCfg true true false true true) false wd0 cwd0 (mkStore fs1 []) os_replace_wd))) wd0
+  lookup (st_fs (fst (pushes (mkCfg true true false true true true) false wd0 cwd0 (mkStore fs1 []) os_replace_wd))) wd0
   <> Some NDir.
 Proof. exact refuted_replace_wd. Qed.
 Print Assumptions C11_prefix_refuted_link_replaces_working_directory.
 
 (* directories created or entered through a link (named blob below a link) *)
-Theorem C11_prefix_refuted_directory_through_link : escapes (mkCfg true true true false true).
+Theorem C11_prefix_refuted_directory_through_link : escapes (mkCfg true true true false true true).
 Proof. exact refuted_dir_through_link. Qed.
 Print Assumptions C11_prefix_refuted_directory_through_link.
 
 (* regular entry / named blob written through a final link whose raw target leaves the tree *)
-Theorem C11_prefix_refuted_write_through_link : escapes (mkCfg true true true true false).
+Theorem C11_prefix_refuted_write_through_link : escapes (mkCfg true true true true false true).
 Proof. exact refuted_write_through_link. Qed.
 Print Assumptions C11_prefix_refuted_write_through_link.
 
-Theorem C11_prefix_refuted_blob_through_link : escapes (mkCfg true true true true false).
+Theorem C11_prefix_refuted_blob_through_link : escapes (mkCfg true true true true false true).
 Proof. exact refuted_blob_through_link. Qed.
 Print Assumptions C11_prefix_refuted_blob_through_link.
 
 (* unpack directory reached through a link (neither of the last two repairs) *)
-Theorem C11_prefix_refuted_unpack_through_link : escapes (mkCfg true true true false false).
+Theorem C11_prefix_refuted_unpack_through_link : escapes (mkCfg true true true false false true).
 Proof. exact refuted_title_through_link. Qed.
 Print Assumptions C11_prefix_refuted_unpack_through_link.
 
 (* with PreservePermissions a directory entry on top of a link re-modes a directory outside *)
 Theorem C11_prefix_refuted_remode :
   inside wd0 [b "r"] = false /\
-  view_at (st_fs (fst (pushes (mkCfg true true true false true) true wd0 cwd0 (mkStore fs0 []) os_remode))) [b "r"]
+  view_at (st_fs (fst (pushes (mkCfg true true true false true true) true wd0 cwd0 (mkStore fs0 []) os_remode))) [b "r"]
   <> view_at fs0 [b "r"].
 Proof. exact refuted_remode. Qed.
 Print Assumptions C11_prefix_refuted_remode.
+
+(* os.Chtimes through a freshly unpacked link sets the times of a file outside *)
+Theorem C11_prefix_refuted_times_through_link : escapes (mkCfg true true true true true false).
+Proof. exact refuted_touch. Qed.
+Print Assumptions C11_prefix_refuted_times_through_link.
 
 (* the hypotheses are satisfiable and the repaired store still accepts ordinary archives *)
 Example C11_example_inv : Inv wd0 fs0.
@@ -127,10 +137,10 @@ Proof. exact replace_wd_fixed. Qed.
 
 Example C11_example_ordinary :
   snd (run0 cfg_fixed os_ordinary) = [true; true; true] /\
-  view_at (fst (run0 cfg_fixed os_ordinary)) [b "r"; b "w"; b "t"; b "a"; b "b"; b "f"] = VFile (enc 8 384) /\
-  view_at (fst (run0 cfg_fixed os_ordinary)) [b "r"; b "w"; b "t"; b "l"] = VFile (enc 9 420) /\
+  view_at (fst (run0 cfg_fixed os_ordinary)) [b "r"; b "w"; b "t"; b "a"; b "b"; b "f"] = VFile (enc 8 384) 0%N /\
+  view_at (fst (run0 cfg_fixed os_ordinary)) [b "r"; b "w"; b "t"; b "l"] = VFile (enc 9 420) 0%N /\
   view_at (fst (run0 cfg_fixed os_ordinary)) [b "r"; b "w"; b "t"; b "k"] = VSym (b "a/b/s/../x") /\
-  view_at (fst (run0 cfg_fixed os_ordinary)) [b "r"; b "w"; b "old"] = VFile (enc 11 104).
+  view_at (fst (run0 cfg_fixed os_ordinary)) [b "r"; b "w"; b "old"] = VFile (enc 11 104) 0%N.
 Proof. exact ordinary_ok. Qed.
 
 Example C11_example_attacks_confined :
@@ -140,7 +150,59 @@ Proof. exact attacks_confined_fixed. Qed.
 
 Example C11_example_narrow_unpack_directory :
   snd (run0 cfg_fixed os_narrow) = [true] /\
-  view_at (fst (run0 cfg_fixed os_narrow)) [b "r"; b "w"; b "t"] = VDir 448%N /\
-  view_at (fst (run0 cfg_fixed os_narrow)) [b "r"; b "w"; b "t"; b "a"] = VDir 493%N /\
-  view_at (fst (run0 cfg_fixed os_narrow)) [b "r"; b "w"] = VDir 493%N.
+  view_at (fst (run0 cfg_fixed os_narrow)) [b "r"; b "w"; b "t"] = VDir 448%N 0%N /\
+  view_at (fst (run0 cfg_fixed os_narrow)) [b "r"; b "w"; b "t"; b "a"] = VDir 493%N 0%N /\
+  view_at (fst (run0 cfg_fixed os_narrow)) [b "r"; b "w"] = VDir 493%N 0%N.
 Proof. exact narrow_ok. Qed.
+
+Example C11_example_times_not_through_link :
+  snd (run0 cfg_fixed os_touch) = [true] /\
+  view_at (fst (run0 cfg_fixed os_touch)) [b "victim"] = view_at fs0 [b "victim"] /\
+  view_at (fst (run0 cfg_fixed os_touch)) [b "r"; b "w"; b "t"; b "l"] = VSym (b "a/b/s/../../../victim").
+Proof. exact touch_fixed. Qed.
+
+Example C11_example_times_set :
+  view_at (fst (run0 cfg_fixed os_times)) [b "r"; b "w"; b "t"; b "a"] = VDir 493%N 5%N /\
+  view_at (fst (run0 cfg_fixed os_times)) [b "r"; b "w"; b "t"; b "a"; b "f"] = VFile (enc 7 420) 6%N.
+Proof. exact times_ok. Qed.
+
+(* audit F5: the other ways a name "would resolve outside" are rejected too *)
+
+(* an entry name that is not below the unpack directory (even when inside the working directory) *)
+Theorem C11_entry_outside_unpack_directory_rejected :
+  forall (g : cfg) (pres : bool) (wd cwd : path) (title : str) (f : fsys) (e : entry),
+    inside (lex_loc wd title) (lex_loc wd (entry_name e)) = false ->
+    forall t, extract_entry g pres cwd (lex_loc wd title) title f e t = None.
+Proof. exact entry_outside_unpack_dir_rejected. Qed.
+Print Assumptions C11_entry_outside_unpack_directory_rejected.
+
+(* a symbolic or hard link whose target, relative to the link's directory, is lexically not below
+   the unpack directory *)
+Theorem C11_link_target_outside_rejected :
+  forall (g : cfg) (pres : bool) (cwd dp : path) (dirName : str) (f : fsys) (nm tgt : str) (rel : list name) (t : N),
+    entry_rel dp dirName nm = Some rel ->
+    inside dp (link_abs_path (dp ++ rel) tgt) = false ->
+    extract_entry g pres cwd dp dirName f (ESym nm tgt) t = None /\
+    extract_entry g pres cwd dp dirName f (EHard nm tgt) t = None.
+Proof. exact link_target_outside_rejected. Qed.
+Print Assumptions C11_link_target_outside_rejected.
+
+(* a name with a symbolic link among its parents below the unpack directory (for every entry type) *)
+Theorem C11_entry_through_link_rejected :
+  forall (g : cfg) (pres : bool) (cwd dp : path) (dirName : str) (f : fsys) (e : entry) (t : N)
+         (q : list name) (c : name) (r : list name) (d : str) (a : bool) (cs : list comp),
+    RealD f [] dp -> RealD f dp q ->
+    entry_rel dp dirName (entry_name e) = Some (q ++ c :: r) -> r <> [] ->
+    lookup f (dp ++ q ++ [c]) = Some (NSym d a cs) ->
+    extract_entry g pres cwd dp dirName f e t = None.
+Proof. exact entry_through_link_rejected. Qed.
+Print Assumptions C11_entry_through_link_rejected.
+
+(* audit F3: without "no inode shared with the outside" the statement fails on the repaired store *)
+Theorem C11_shared_inode_refuted :
+  inside wd0 [b "victim"] = false /\
+  snd (pushes cfg_fixed false wd0 cwd0 (mkStore fs2 []) [PBlob (b "old") 7%N]) = [true] /\
+  view_at (st_fs (fst (pushes cfg_fixed false wd0 cwd0 (mkStore fs2 []) [PBlob (b "old") 7%N]))) [b "victim"]
+  <> view_at fs2 [b "victim"].
+Proof. exact refuted_shared_inode. Qed.
+Print Assumptions C11_shared_inode_refuted.
